@@ -60,6 +60,21 @@ CHECKS = {
             "Reference copula formulas are re-typed from the papers (differential oracle, validated against "
             "dblquad for Clayton d=2); grids small (<= 700 states in 2-d, <= 400 in 3-d); tolerance 1e-7 (1-d), "
             "1e-6 relative + 2e-8 of the intensity (copula)."),
+    "C02": ("3/C02",
+            "black-box measurement of the piecewise-constant map u -> state (lattice + candidate break points + "
+            "bisection) against the target law; scripted uniforms / bit source for the batch entry points; "
+            "operation sequences on one long-lived sampler versus fresh samplers",
+            "Exploration: for generated probability vectors (zeros, ties, tiny and dominant entries, length up to "
+            "1024) and for chains built through the public factory with every option it accepts (1-d: six methods; "
+            "copula d=2,3: inversion and adapted tree) the preimage length of every state is measured through the "
+            "single-uniform entry point and compared with p_k (resp. cell rate / intensity) at 1e-9; states of "
+            "probability zero, outside the grid or the origin with positive measure are violations; batch calls "
+            "are driven with scripted uniforms / bits and compared element-wise; histories (repeat, out-of-order, "
+            "beyond-cache, batch) on a long-lived sampler must agree with fresh samplers. Measure-zero anomalies "
+            "(isolated u, rounding slivers) are reported under one known-finding key per sampler family.",
+            "Candidate break points are read from the sampler's own tables only to make the measurement exact; "
+            "the verdict comes from black-box evaluations. TABLE: law implied by its tables plus scripted batch. "
+            "numpy's global RNG is seeded inside each case (the inversion sampler falls back on it)."),
 }
 
 NOT_YET = "check not built yet in this session; will be claimed when its module exists"
